@@ -258,6 +258,7 @@ E('dictlookupone', lambda s: etl.dictlookupone(s, 'f0'), kind='scalar', group='l
 E('recordlookup', lambda s: etl.recordlookup(s, 'f0'), kind='scalar', group='lookups')
 E('recordlookupone', lambda s: etl.recordlookupone(s, 'f0'), kind='scalar', group='lookups')
 # counting / misc / statistics
+E('valuecount', lambda s: etl.valuecount(s, 'f0', 1), kind='scalar', group='counting')
 E('valuecounter', lambda s: etl.valuecounter(s, 'f0'), kind='scalar', group='counting')
 E('valuecounts', lambda s: etl.valuecounts(s, 'f0'), group='counting')
 E('valuecounts-multi', lambda s: etl.valuecounts(s, 'f0', 'f1'), group='counting')
@@ -347,6 +348,21 @@ E('rowgroupmap-presorted', lambda s: etl.rowgroupmap(s, 'f0', lambda k, rows: [(
 E('pivot-presorted', lambda s: etl.pivot(s, 'f0', 'f1', 'f2', list, presorted=True), group='reshape', hdrdep=True, ragged=False)
 E('unjoin-presorted', lambda s: etl.unjoin(s, 'f2', key='f1', presorted=True), kind='multi', group='joins', ragged=False)
 
+# the key at different positions in the two inputs (second input has fields g1, f0)
+for _n, _st in (('join', None), ('leftjoin', None), ('rightjoin', None), ('outerjoin', None), ('antijoin', None), ('lookupjoin', None),
+                ('hashjoin', 0), ('hashleftjoin', 0), ('hashrightjoin', 1), ('hashantijoin', 0), ('hashlookupjoin', 0)):
+    E(_n + '-keypos', (lambda f: lambda a, b: f(a, b, key='f0'))(getattr(etl, _n)), arity=2, second='joinrev', stream=_st,
+      group='hashjoins' if _n.startswith('hash') else 'joins', ragged=(_n != 'hashantijoin'))
+E('hashrightjoin-lrkey-missing', lambda a, b: etl.hashrightjoin(a, b, lkey='f0', rkey='f0', missing='M'), arity=2, second='joinrev', stream=1,
+  group='hashjoins')
+E('addcolumn-missing', lambda s: etl.addcolumn(s, 'q', [1, 2, 3], missing='NA'), stream=0, group='basics', ragged=False)
+E('addcolumn-index-missing', lambda s: etl.addcolumn(s, 'q', [1, 2, 3], index=1, missing='-'), stream=0, group='basics', ragged=False)
+E('annex1-missing', lambda s: etl.annex(s, [['q'], [1]], missing='NA'), stream=0, group='basics')
+E('selectop', lambda s: etl.selectop(s, 'f0', 1, lambda a, b: a != b), stream=0, group='selects')
+E('listoftuples', lambda s: etl.listoftuples(s), kind='scalar', group='accessors')
+E('tupleoflists', lambda s: etl.tupleoflists(s), kind='scalar', group='accessors')
+E('lookallstr', lambda s: repr(etl.lookallstr(s)), kind='scalar', group='vis')
+
 
 def views():
     return [e for e in ENTRIES.values() if e.kind == 'view']
@@ -379,5 +395,12 @@ def table_same(n=3):
     return [['f0', 'f1', 'f2']] + [list(r) for r in rows]
 
 
+def table_joinrev(n=3):
+    # the join schema with the key *not* in the position it has on the left
+    return [[r[1], r[0]] for r in table_join(n)]
+
+
 def second_for(entry, n=3):
+    if entry.second == 'joinrev':
+        return table_joinrev(n)
     return table_join(n) if entry.second == 'join' else table_same(n)
